@@ -18,6 +18,10 @@ var harnesses = map[string]func(*vsched.H){
 	"SessionEnd":           harness.SessionEnd,
 	"StorageSeq":           harness.StorageSeq,
 	"LimitCase":            harness.LimitCase,
+	"QuotaHistory":         harness.QuotaHistory,
+	"UniqueHistory":        harness.UniqueHistory,
+	"StatefulIsolation":    harness.StatefulIsolation,
+	"PromSessions":         harness.PromSessions,
 	"LimitStack":           harness.LimitStack,
 	"NIP11Chain":           harness.NIP11Chain,
 	"CacheConcurrent":      harness.CacheConcurrent,
